@@ -24,7 +24,7 @@ impl Deserialize for Costmdls {
                 cbor_event::Len::Len(n) => table.len() < n as usize,
                 cbor_event::Len::Indefinite => true,
             } {
-                if is_break_tag(raw, "Costmdls")? {
+                if is_break_tag(raw, len, "Costmdls")? {
                     break;
                 }
                 let key = Language::deserialize(raw)?;
